@@ -178,6 +178,17 @@ def _c13(tier, rng):
             ops.append("S3 T " + core.hx(b))                       # temporal all omitted
             ops.append("S3 E " + core.hx(b + "/E:X/RL:X/RC:X"))    # explicit X, environmental all omitted
     yield ("v3: all base vectors with every optional metric Not Defined, T and E decoders", ops, True)
+    # environmental metrics all Not Defined (omitted, or a random few written as X) while the temporal ones are defined
+    ops_t = []
+    tts = list(vec.all_temporal3_tokens())
+    envx = [m[0] + ":X" for m in vec.V3E]
+    for ver in vec.VERS3:
+        for bt in vec.all_base3_tokens():
+            b = vec.v3vec(ver, bt)
+            for tt in (tts if tier == "thorough" else [rng.choice(tts), rng.choice(tts), ["E:U", "RL:O", "RC:U"]]):
+                ex = [x for x in envx if rng.chance(1, 4)]
+                ops_t.append("S3 E " + core.hx("/".join([b] + list(tt) + ex)))
+    yield ("v3: all base vectors x defined temporal metrics, environmental metrics all Not Defined, E decoder", ops_t, tier == "thorough")
     ops2 = []
     for bt in vec.all_base2_tokens():
         b = "/".join(bt)
